@@ -580,6 +580,40 @@ def c03() -> List[M]:
     ]
 
 
+def c19() -> List[M]:
+    return [
+        M("C19", "et-backup-writes-offgrid-code", ET, "            await self.write_setting('work_mode', 2)", "            await self.write_setting('work_mode', 1)", "C19.R1"),
+        M("C19", "et-eco-charge-leaves-general", ET, "            await self.write_setting('eco_mode_4_switch', 0)\n            await self.write_setting('work_mode', 3)", "            await self.write_setting('eco_mode_4_switch', 0)\n            await self.write_setting('work_mode', 0)", "C19.R1"),
+        M("C19", "es-backup-ends-in-general", ES, "        await self._set_offgrid_work_mode(0)\n        await self._set_work_mode(OperationMode.BACKUP)", "        await self._set_offgrid_work_mode(0)\n        await self._set_work_mode(OperationMode.GENERAL)", "C19.R1"),
+        M("C19", "es-eco-charge-sets-general-mode", ES, "            await self.write_setting('eco_mode_4_switch', 0)\n            await self._set_eco_mode()", "            await self.write_setting('eco_mode_4_switch', 0)\n            await self._set_general_mode()", "C19.R1"),
+        M("C19", "et-getter-reads-other-setting", ET, "        mode_id = await self.read_setting('work_mode')", "        mode_id = await self.read_setting('grid_export')", "C19.R1"),
+        M("C19", "es-getter-swaps-emulated-modes", ES, "        if eco_mode.is_eco_charge_mode():\n            return OperationMode.ECO_CHARGE\n        if eco_mode.is_eco_discharge_mode():\n            return OperationMode.ECO_DISCHARGE", "        if eco_mode.is_eco_charge_mode():\n            return OperationMode.ECO_DISCHARGE\n        if eco_mode.is_eco_discharge_mode():\n            return OperationMode.ECO_CHARGE", "C19.R1"),
+        M("C19", "es-offers-peak-shaving", ES, "        result.remove(OperationMode.PEAK_SHAVING)\n        result.remove(OperationMode.SELF_USE)", "        result.remove(OperationMode.SELF_USE)", "C19.R2"),
+        M("C19", "es-offers-self-use", ES, "        result.remove(OperationMode.PEAK_SHAVING)\n        result.remove(OperationMode.SELF_USE)", "        result.remove(OperationMode.PEAK_SHAVING)", "C19.R2"),
+        M("C19", "et-self-use-branch-dropped", ET, "        elif operation_mode == OperationMode.SELF_USE:\n            await self.write_setting('work_mode', 5)\n            await self._set_offline(False)\n            await self._clear_battery_mode_param()\n", "", "C19.R2|C19.R1"),
+        M("C19", "benign-et-always-offers-peak-shaving", ET, "        if not self._has_peak_shaving:\n            result.remove(OperationMode.PEAK_SHAVING)\n", "", "clean"),
+        M("C19", "et-group2-left-on", ET, "            await self.write_setting('eco_mode_2_switch', 0)", "            await self.write_setting('eco_mode_2_switch', 1)", "C19.R3"),
+        M("C19", "es-group4-not-switched-off", ES, "            await self.write_setting('eco_mode_4_switch', 0)\n", "", "C19.R3"),
+        M("C19", "et-charge-args-swapped", ET, "eco_mode.encode_charge(eco_mode_power, eco_mode_soc)", "eco_mode.encode_charge(eco_mode_soc, eco_mode_power)", "C19.R3"),
+        M("C19", "et-eco-written-to-group2", ET, "                await self.write_setting('eco_mode_1', eco_mode.encode_discharge(eco_mode_power))", "                await self.write_setting('eco_mode_2', eco_mode.encode_discharge(eco_mode_power))", "C19.R3"),
+        M("C19", "et-discharge-branch-encodes-charge", ET, "                await self.write_setting('eco_mode_1', eco_mode.encode_discharge(eco_mode_power))", "                await self.write_setting('eco_mode_1', eco_mode.encode_charge(eco_mode_power))", "C19.R3"),
+        M("C19", "v1-template-end-hour-24", S, 'return bytes.fromhex("0000173b{:04x}ff7f".format((-1 * abs(eco_mode_power)) & (2 ** 16 - 1)))', 'return bytes.fromhex("0000183b{:04x}ff7f".format((-1 * abs(eco_mode_power)) & (2 ** 16 - 1)))', "C19.R4"),
+        M("C19", "v1-template-six-days", S, 'return bytes.fromhex("0000173b{:04x}ff7f".format(abs(eco_mode_power)))', 'return bytes.fromhex("0000173b{:04x}ff3f".format(abs(eco_mode_power)))', "C19.R4"),
+        M("C19", "v1-discharge-negative-power", S, 'return bytes.fromhex("0000173b{:04x}ff7f".format(abs(eco_mode_power)))', 'return bytes.fromhex("0000173b{:04x}ff7f".format((-1 * abs(eco_mode_power)) & (2 ** 16 - 1)))', "C19.R4"),
+        M("C19", "schedule-on-off-byte-off-by-one", S, "            \"0000173b{:02x}7f{:04x}{:04x}{:04x}\".format(\n                255 - self.schedule_type,", "            \"0000173b{:02x}7f{:04x}{:04x}{:04x}\".format(\n                254 - self.schedule_type,", "C19.R4"),
+        M("C19", "schedule-months-other-mask", S, "                eco_mode_soc,\n                0 if self.schedule_type != ScheduleType.ECO_MODE_745 else 0x0fff))", "                eco_mode_soc,\n                0 if self.schedule_type != ScheduleType.ECO_MODE_745 else 0x0ffe))", "C19.R4"),
+        M("C19", "schedule-charge-power-unmasked-positive", S, "                (-1 * abs(self.schedule_type.encode_power(eco_mode_power))) & (2 ** 16 - 1),", "                abs(self.schedule_type.encode_power(eco_mode_power)),", "C19.R4"),
+        M("C19", "recogniser-needs-all-eight-bits", S, "            and self.on_off == (-1 - self.schedule_type) \\\n            and self.day_bits == 127 \\\n            and self.power < 0 \\", "            and self.on_off == (-1 - self.schedule_type) \\\n            and self.day_bits == -1 \\\n            and self.power < 0 \\", "C19.R4"),
+        M("C19", "encode-power-745-x100", S, "        if self == ScheduleType.ECO_MODE_745:\n            return value * 10\n        return value", "        if self == ScheduleType.ECO_MODE_745:\n            return value * 100\n        return value", "C19.R4"),
+        M("C19", "range-745-too-narrow", S, "            return -1000 <= value <= 1000", "            return -100 <= value <= 100", "C19.R4"),
+        M("C19", "et-dod-written-raw", ET, "            await self.write_setting('battery_discharge_depth', 100 - dod)", "            await self.write_setting('battery_discharge_depth', dod)", "C19.R5"),
+        M("C19", "et-dod-getter-other-base", ET, "        return 100 - await self.read_setting('battery_discharge_depth')", "        return 99 - await self.read_setting('battery_discharge_depth')", "C19.R5"),
+        M("C19", "es-dod-sent-raw", ES, "Aa55WriteCommand(0x560, 100 - dod)", "Aa55WriteCommand(0x560, dod)", "C19.R5"),
+        M("C19", "dt-export-limit-writes-switch", DT, "            return await self.write_setting('grid_export_limit', export_limit)", "            return await self.write_setting('grid_export', export_limit)", "C19.R5"),
+        M("C19", "et-export-limit-getter-other-id", ET, "        return await self.read_setting('grid_export_limit')", "        return await self.read_setting('grid_export')", "C19.R5"),
+    ]
+
+
 def corpus() -> List[M]:
     out: List[M] = []
     for name, fn in sorted(globals().items()):
